@@ -245,7 +245,8 @@ MANIFEST = {
                  "account ends empty, CurrentPeriod = min(c/EPP, MaxPeriod). Companion theorems: C13_all_distributed for ANY "
                  "state, disabled epochs, genesis / fresh-start consistency, catch-up and waiting lemmas for inconsistent "
                  "counters together with two _refuted theorems showing the closed form is false there, and "
-                 "C13_sub_unit_provision_panics (a reported defect: provision in (0,1) unibi panics the hook). Default "
+                 "C13_sub_unit_provision_panics_before_fix (defect found by this check, repaired by fix: 2259f46: a provision in "
+                 "(0,1) unibi panicked the hook) and C13_distributed_along_every_history (the distribution for EVERY state). Default "
                  "parameters are re-printed from the linked packages on every run and proved to give >= 1 unibi per epoch in "
                  "all 96 periods, so edit-free histories from the default genesis follow the schedule unconditionally. The model "
                  "is compared with the real keepers on generated histories and the proved-sound schedule checker is evaluated "
@@ -254,8 +255,7 @@ MANIFEST = {
     },
     "level_note": ("Hypotheses: Consistent start (necessary: two _refuted theorems; established by genesis and by the first "
                    "disabled epoch of a never-started module), EPP/MaxPeriod fixed per history, provision positive at the "
-                   "scheduled period (>= 1 unibi while the sub-unibi panic exists on the tree, as probed by the driver), valid "
-                   "proportions, empty module account, numbers < 2^62, no LegacyDec overflow, sudo root present. The polynomial "
+                   "scheduled period, valid proportions, empty module account, numbers < 2^62, no LegacyDec overflow, sudo root present. The polynomial "
                    "evaluation (Lib/Dec.v) is shared by model and schedule: its agreement with Go is correspondence evidence, "
                    "not a theorem. Trusted: Coq kernel + vm_compute, Lib/Dec.v, the driver's balance snapshots, "
                    "trace->Coq rendering, harness/gen/c13 (prints constants of the linked packages)."),
